@@ -162,39 +162,43 @@ Definition binop_case (sub : bool) (o : run_outcome) (m1 e1 m2 e2 : Z) : case_ou
   | _ => OConfig o
   end.
 
-(* --- input literals.  Plain m e = m / 10^e (e >= 0).  Sci M x = M * 10^x: exponent notation, M = all mantissa digits as an
-       integer.  Python floats in a DataFrame reach DuckDB as CAST(CAST(col AS VARCHAR) AS DECIMAL(w,s)) and doubles below
-       1e-4 are rendered in exponent notation; CSV text may use it as well. *)
-Inductive lit := Plain (m e : Z) | Sci (M x : Z).
+(* --- input literals.  Plain m e = m / 10^e (e >= 0).  Sci M d x = (M / 10^d) * 10^x: exponent notation with mantissa
+       M / 10^d (d decimals) — Python floats in a DataFrame reach DuckDB as CAST(CAST(col AS VARCHAR) AS DECIMAL(w,s)) and
+       doubles below 1e-4 are rendered in exponent notation ("6.5e-05" = Sci 65 1 (-5)); CSV text may use it as well. *)
+Inductive lit := Plain (m e : Z) | Sci (M d x : Z).
 
 Fixpoint ndigits_pos (fuel : nat) (n : Z) : Z :=
   match fuel with O => 0 | S f => if n <=? 0 then 0 else 1 + ndigits_pos f (n / 10) end.
 Definition ndigits (n : Z) : Z := ndigits_pos (S (Z.to_nat (Z.log2 (Z.abs n + 1)))) (Z.abs n).
 Definition leading_digit (n : Z) : Z := Z.abs n / 10 ^ (ndigits n - 1).
 
-(* documented: the exact value rounded to the scale *)
-Definition to_scale_lit_spec (s : Z) (l : lit) : Z :=
-  match l with
-  | Plain m e => to_scale s m e
-  | Sci M x => if x <=? 0 then to_scale s M (- x) else to_scale s (M * 10 ^ x) 0
-  end.
+(* M * 10^y rounded to scale s, y any integer *)
+Definition to_scale_pow (s M y : Z) : Z := if y <=? 0 then to_scale s M (- y) else to_scale s (M * 10 ^ y) 0.
 
-(* faithful (observed on DuckDB 1.5, VARCHAR -> DECIMAL): when k = -(x+s) digits of the mantissa have to be dropped the cast
-   divides by 10 k times but stops as soon as the quotient is 0, rounding on the last digit it removed: with k greater than
-   the number of mantissa digits the LEADING digit decides and e.g. 5e-30 becomes one unit of the last kept decimal.
+(* documented: the exact value rounded to the scale, rejected when it does not fit *)
+Definition load_lit_spec (w s : Z) (l : lit) : option Z :=
+  let v := match l with Plain m e => to_scale s m e | Sci M d x => to_scale_pow s M (x - d) end in
+  if fits w v then Some v else None.
+
+(* faithful (observed on DuckDB 1.5, VARCHAR -> DECIMAL with an exponent):
+   - the mantissa alone must fit: more integer digits than w - s => conversion error, whatever the exponent;
+   - when k = -(x - d + s) > 0 digits of the mantissa have to be dropped the cast divides by 10 k times but stops as soon as
+     the quotient is 0, rounding on the last digit it removed: with k greater than the number of mantissa digits the LEADING
+     digit decides, so 5e-30 becomes one unit of the last kept decimal.
    (mantissas with more decimals than the scale are outside this model) *)
-Definition to_scale_lit_impl (s : Z) (l : lit) : Z :=
-  match l with
-  | Plain m e => to_scale s m e
-  | Sci M x =>
-      let k := - (x + s) in
-      if k <=? 0 then M * 10 ^ (- k)
-      else if k <=? ndigits M then round_half_away M (10 ^ k)
-      else if 5 <=? leading_digit M then Z.sgn M else 0
-  end.
+Definition to_scale_sci_impl (s M y : Z) : Z :=
+  let k := - (y + s) in
+  if k <=? 0 then M * 10 ^ (- k)
+  else if k <=? ndigits M then round_half_away M (10 ^ k)
+  else if 5 <=? leading_digit M then Z.sgn M else 0.
 
-Definition load_lit (f : Z -> lit -> Z) (w s : Z) (l : lit) : option Z :=
-  let v := f s l in if fits w v then Some v else None.
+Definition load_lit_impl (w s : Z) (l : lit) : option Z :=
+  match l with
+  | Plain m e => load w s m e
+  | Sci M d x =>
+      if w - s <? ndigits M - d then None
+      else let v := to_scale_sci_impl s M (x - d) in if fits w v then Some v else None
+  end.
 
 Definition binop_vals (sub : bool) (w s : Z) (la lb : option Z) : case_outcome :=
   match la, lb with
@@ -204,8 +208,8 @@ Definition binop_vals (sub : bool) (w s : Z) (la lb : option Z) : case_outcome :
   | _, _ => OLoadReject
   end.
 
-Definition binop_case_lit (f : Z -> lit -> Z) (sub : bool) (o : run_outcome) (l1 l2 : lit) : case_outcome :=
+Definition binop_case_lit (ld : Z -> Z -> lit -> option Z) (sub : bool) (o : run_outcome) (l1 l2 : lit) : case_outcome :=
   match o with
-  | CfgOk w s => binop_vals sub w s (load_lit f w s l1) (load_lit f w s l2)
+  | CfgOk w s => binop_vals sub w s (ld w s l1) (ld w s l2)
   | _ => OConfig o
   end.
